@@ -30,6 +30,9 @@ type DocGen struct {
 	Refs bool
 	// XOrder decorates properties with x-order extensions of every shape (C06).
 	XOrder bool
+	// BigMaps lets name-keyed maps (paths, properties) occasionally grow large (13-300 members): code paths that
+	// switch algorithm with size (sort implementations, batching) are only reached by such documents.
+	BigMaps bool
 	// Density scales the probability of optional members (1.0 default).
 	Density float64
 	MaxDepth int
@@ -570,6 +573,11 @@ func (g *DocGen) Parameter(path []string, depth int, allowRef bool) obj {
 	g.mark(path, k)
 	o := obj{}
 	if allowRef && g.Only == nil && g.R.Intn(5) == 0 {
+		if g.Valid && g.Refs && g.R.Intn(3) == 0 {
+			o["$ref"] = "other.json#/parameters/Limit" // chain of two hops in the sibling document
+			g.cell(k, "$ref")
+			return o
+		}
 		if r, ok := g.localRef("parameter"); ok {
 			o["$ref"] = r
 			g.cell(k, "$ref")
@@ -840,6 +848,15 @@ func (g *DocGen) Paths(path []string, depth int) obj {
 	g.mark(path, k)
 	o := obj{}
 	n := g.R.Intn(3)
+	if g.BigMaps && g.Only == nil && g.R.Intn(12) == 0 {
+		big := 128 + g.R.Intn(120)
+		for i := 0; i < big; i++ {
+			nm := fmt.Sprintf("/big/%d", i)
+			g.mark(sub(path, nm), "pathItem")
+			o[nm] = obj{"x-i": float64(i)}
+		}
+		g.cell(k, "big-paths-map")
+	}
 	if g.Only != nil && len(path) == 0 && g.Only[0] == k && g.Only[1] == "/" {
 		n = 1
 	} else if g.Only != nil {
@@ -940,6 +957,10 @@ func SiblingDoc() map[string]interface{} {
 			"Shared": obj{"type": "object", "title": "shared", "properties": obj{"id": obj{"type": "integer", "format": "int64"}, "tree": obj{"$ref": "#/definitions/Tree"}}},
 			"a/b":    obj{"type": "string", "description": "escaped name"},
 			"Tree":   obj{"type": "object", "properties": obj{"children": obj{"type": "array", "items": obj{"$ref": "#/definitions/Tree"}}}},
+		},
+		"parameters": obj{
+			"Limit": obj{"$ref": "#/parameters/limit"}, // a second hop whose name differs by case only
+			"limit": obj{"name": "limit", "in": "query", "type": "integer", "format": "int32"},
 		},
 		"paths": obj{"/pets": obj{
 			"get": obj{"operationId": "listPets", "responses": obj{"200": obj{"description": "ok", "schema": obj{"$ref": "#/definitions/Shared"}}, "default": obj{"description": ""}}},
@@ -1155,6 +1176,21 @@ func (g *DocGen) Schema(path []string, depth int) obj {
 func (g *DocGen) schemaMap(path []string, kw string, depth int) obj {
 	m := obj{}
 	n := g.count(3)
+	if g.BigMaps && kw == "properties" && g.R.Intn(6) == 0 {
+		// many small properties, x-order values with many ties
+		big := 13 + g.R.Intn(60)
+		for i := 0; i < big; i++ {
+			nm := fmt.Sprintf("prop%03d", g.R.Intn(1000))
+			leaf := obj{"type": "string"}
+			g.mark(sub(path, kw, nm), "schema")
+			if g.XOrder && g.R.Intn(3) != 0 {
+				leaf["x-order"] = float64(g.R.Intn(4))
+			}
+			m[nm] = leaf
+		}
+		g.cell("schema", "big-properties-map")
+		return m
+	}
 	var names []string
 	if kw == "patternProperties" {
 		pool := []string{"^a\\d+$", "^x-", "[0-9]+", "^\"q\"", ".*", "^é"}
